@@ -131,6 +131,65 @@ def r_typed(d):
     return replay
 
 
+def number_values():
+    """numeric constants at every decade boundary of float formatting (repr switches to exponent notation below 1e-4 and from 1e16),
+    with short and long mantissas, both signs; integers across the machine-word boundaries; booleans and NULL"""
+    fl = [0.0, 1e-05, 0.0001, 0.00001, 1e15, 1e16, 1e17, 123456789.125, float(2 ** 53), 0.1 + 0.2, 1 / 3, 5e-324, 1.7976931348623157e308]
+    for e in range(-12, 23):
+        for m in (1.0, 2.5, 9.999, 5.0, 1.2345678901234567):
+            fl.append(m * 10.0 ** e)
+    fl += [-x for x in fl[:40:3]]
+    ints = [0, 1, -1, 7, 2 ** 31 - 1, 2 ** 31, -2 ** 31, 2 ** 63 - 1, 2 ** 63, 10 ** 20, -10 ** 20]
+    return fl, ints
+
+
+def _num_value(node):
+    from mindsdb_sql.parser.ast import Constant, UnaryOperation, NullConstant
+    if isinstance(node, NullConstant):
+        return None
+    if isinstance(node, UnaryOperation) and node.op == '-' and isinstance(node.args[0], Constant):
+        v = node.args[0].value
+        return -v if isinstance(v, (int, float)) and not isinstance(v, bool) else ('?', repr(node))
+    if isinstance(node, Constant):
+        return node.value
+    return ('?', type(node).__name__)
+
+
+def numbers_part(run):
+    """the tree's own string of numeric / boolean / NULL constants (Constant.get_string, Insert.to_value), read back by each of the three
+    real lexers + parsers: same value, same type (concrete family over the formatting boundaries, stated as such)"""
+    from mindsdb_sql import parse_sql
+    from mindsdb_sql.parser.ast import Constant, NullConstant, Select, Insert, Identifier
+    fl, ints = number_values()
+    vals = [(v, float) for v in fl] + [(v, int) for v in ints] + [(True, bool), (False, bool), (None, type(None))]
+    bad, n = {}, 0
+    for v, ty in vals:
+        node = NullConstant() if v is None else Constant(v)
+        forms = [('select-list', Select(targets=[node])), ('insert-node', Insert(table=Identifier('t'), columns=[Identifier('a')], values=[[node]])),
+                 ('insert-raw', Insert(table=Identifier('t'), columns=[Identifier('a')], values=[[v]]))]
+        for form, tree in forms:
+            try:
+                text = tree.to_string()
+            except Exception as e:  # noqa
+                bad.setdefault((form, 'print raises %s' % type(e).__name__), []).append(repr(v))
+                continue
+            for d in ('mindsdb', 'mysql', 'sqlite'):
+                n += 1
+                try:
+                    back = parse_sql(text, d)
+                    got = _num_value(back.targets[0] if form == 'select-list' else back.values[0][0])
+                except Exception as e:  # noqa
+                    got = ('?', 'parse raises %s' % type(e).__name__)
+                ok = (got is None) if v is None else (type(got) is ty and got == v)
+                if not ok:
+                    bad.setdefault((form, d), []).append('%r printed %r read %r' % (v, text, got))
+    for (form, d), items in sorted(bad.items()):
+        run.counterexample('number-to-string:%s:%s' % (form, d), 'constant in %s, read by %s: %s (%d values fail this way)' % (form, d, items[0], len(items)),
+                           {'numbers': {'form': form, 'dialect': d, 'examples': items[:5]}}, True)
+    run.ob('numbers:tree-string:%d values x 3 forms x 3 dialects' % len(vals), 'counterexample' if bad else 'discharged', '%d read-backs' % n)
+    run.validated += n
+
+
 def specs():
     return [
         dict(fn='lit_render', twin='lit_render_reach', replay=r_lit),
@@ -150,7 +209,7 @@ def run(tier):
                      'render_ddl_query.<locals>.LiteralCompiler.render_literal_value', 'render_string_literal',
                      'Constant.get_string', 'Insert.to_value']
     run.assumptions = ['target lexical rules: MySQL reader (back-slash escapes, doubled quotes) for mysql; standard SQL reader (doubled quotes) otherwise; mindsdb dialect reader for the tree\'s own string',
-                       'int/float/bool/NULL/date formatting is CPython str() / SQLAlchemy\'s own literal rendering (trusted)',
+                       'int/float/bool/NULL in the tree\'s own string: a concrete family over the float formatting boundaries and machine-word boundaries (numbers part); in SQLAlchemy renderings: the typed-constant family; date formatting is CPython str() (trusted)',
                        'select-list labels (AS "<value>") are quoted by SQLAlchemy (trusted)',
                        'the postgres fallback path (str(ast).replace("`", "")) is covered by C17, not here']
     ch_obligations(run, HARNESS, specs(), cond_to=150 if tier == 'quick' else 900)
@@ -158,6 +217,10 @@ def run(tier):
     ch_obligations(run, gen_typed(), [dict(fn='typed_%d' % i, twin='typed_%d_reach' % i, replay=r_typed(i), name='typed_constants[%s]' % c07lib.DIALECTS[i])
                                       for i in range(len(c07lib.DIALECTS))], cond_to=200 if tier == 'quick' else 600, path_to=60)
     run.bounds['typed_constants'] = {'positions': c07lib.POSITIONS, 'kinds': c07lib.KINDS, 'values_per_kind': {k: [repr(v) for v in vs] for k, vs in c07lib.VALUES.items()}}
+    try:
+        numbers_part(run)
+    except Exception as e:  # noqa
+        run.error('numbers part crashed: %r' % e)
     try:
         wiring(run)
     except Exception as e:  # noqa
